@@ -674,6 +674,14 @@ def check_filter_callers(prog, rep):
                 rep.unrec(R, construct, "result / points not simple names")
                 continue
             res, pts = st.targets[0].id, c.args[0].id
+            # the filter multiplies the points by `wt` itself: the points handed over are the raw objective values (weights applied once)
+            pdefs = [x.value for x in walk_no_nested(f.node) if isinstance(x, ast.Assign) and any(isinstance(t, ast.Name) and t.id == pts for t in x.targets)]
+            pre = [y for d in pdefs for y in ast.walk(d) if (isinstance(y, ast.Attribute) and y.attr == "wvalues")
+                   or (isinstance(y, ast.BinOp) and isinstance(y.op, ast.Mult) and dump(wt) in (dump(y.left), dump(y.right)))]
+            if pre:
+                rep.violate(R, construct, "the points handed to the filter are already weighted (%s) and the weight vector %s is passed as well: the weights are applied twice, a "
+                            "minimised objective is treated as maximised" % (dump(pre[0])[:40], dump(wt)), where(f, c), "raw objective values", dump(pre[0])[:40])
+                continue
             used = [s.value.id for s in walk_no_nested(f.node) if isinstance(s, ast.Subscript) and isinstance(s.slice, ast.Name) and s.slice.id == res
                     and isinstance(s.value, ast.Name)]
             if not used:
@@ -923,7 +931,13 @@ def check_default(prog, rep):
         return
     bad = [dump(v) for v in dkw.values if "".join(dump(v).split()) not in ("numpy.repeat(1.0,self.nobj)", "numpy.ones(self.nobj)", "numpy.repeat(1.0,self._nobj)")]
     if bad:
-        rep.unrec(R, construct, "default vectors %s are not ones of length nobj" % bad)
+        own = [b for b in bad if "".join(b.split()) in ("self.obj_wt", "self._obj_wt", "-self.obj_wt")]
+        if own:
+            # the front handed to the transformation is the solver's, already in minimising form: the protocol's own signs would be applied a second time
+            rep.violate(R, construct, "the default transformation is given the protocol's own objective weights (%s): the front it scores is already in minimising form, so with "
+                        "mixed-sign weights the default distance is no longer the distance to the preference vector" % own[0], where(p_kw.setter), "numpy.repeat(1.0, self.nobj)", own[0])
+        else:
+            rep.unrec(R, construct, "default vectors %s are not ones of length nobj" % bad)
         return
     rep.ok(R, construct, "default %s receives %s, each a ones vector of length nobj" % (target.name, sorted(keys)))
     rep.floor(R, 1)
